@@ -76,6 +76,11 @@ def cases(tier: str, seed: int) -> List[Dict[str, Any]]:
                     for opt in ("Adam", "AdamW"):
                         out.append({"kind": kind, "fin": fi, "fout": fo, "k": 3 if kind == "Conv1d" else None, "depth": d, "form": form,
                                     "eta": 0.3, "opt": opt, "constraint": "default", "seed": seed})
+    # a single example passed unbatched, (C, L) instead of (N, C, L)
+    for cin, k, co in itertools.product([1, 2, 3, 8, 16], [1, 2, 3, 5, 9], [1, 3, 8]):
+        for (d, form) in conts:
+            out.append({"kind": "Conv1d", "fin": cin, "fout": co, "k": k, "depth": d, "form": form, "eta": 0.3, "opt": "Adam",
+                        "constraint": "default", "seed": seed, "unbatched": True})
     for cin, k, co in itertools.product([1, 2, 3, 8], range(1, 10), [1, 3, 64]):
         for (d, form), eta, opt, con in itertools.product(conts, ETAS, ["Adam", "AdamW"], ["default", None]):
             ndev = (eta != ETAS[0]) + (opt != "Adam") + (con != "default")
@@ -98,6 +103,8 @@ def run_case(case: Dict[str, Any]) -> Dict[str, Any]:
     ident = f"{kind}|{form}|{case['opt']}|constraint={case['constraint']}"
     if case.get("lr_kind"):
         ident += f"|lr={case['lr_kind']}"
+    if case.get("unbatched"):
+        ident += "|unbatched"
     viol: List[Dict[str, str]] = []
     nin = fi * (k or 1)
     if nin <= 3 and fo <= 3:
@@ -175,12 +182,16 @@ def run_case(case: Dict[str, Any]) -> Dict[str, Any]:
             if frozen_at_build:
                 for p_ in plist:
                     p_.requires_grad_(True)
-            if kind == "Conv1d":
+            if kind == "Conv1d" and case.get("unbatched"):
+                x = torch.tensor(xp, dtype=torch.float64).reshape(fi, k)
+            elif kind == "Conv1d":
                 x = torch.tensor(xp, dtype=torch.float64).reshape(1, fi, k)
             else:
                 x = torch.tensor(xp, dtype=torch.float64).reshape(1, fi)
             mag = torch.rand(fo, generator=gm, dtype=torch.float64) * 9.9 + 0.1
             up = (torch.tensor(gp, dtype=torch.float64) * mag).reshape(1, fo, *([1] if kind == "Conv1d" else []))
+            if case.get("unbatched"):
+                up = up[0]
             y0 = layer(x)
             (y0 * up).sum().backward()
             opt.step()
